@@ -371,8 +371,8 @@ func (t *Teamserver) Start() {
 			HandlerData.HostRotation = Data["HostRotation"].(string)
 			HandlerData.PortBind = Data["PortBind"].(string)
 			HandlerData.UserAgent = Data["UserAgent"].(string)
-			HandlerData.Headers = strings.Split(Data["Headers"].(string), ", ")
-			HandlerData.Uris = strings.Split(Data["Uris"].(string), ", ")
+			HandlerData.Headers = storedList(Data["Headers"].(string))
+			HandlerData.Uris = storedList(Data["Uris"].(string))
 			HandlerData.BehindRedir = t.Profile.Config.Demon.TrustXForwardedFor
 			HandlerData.PortConn, _ = Data["PortConn"].(string)
 			HandlerData.HostHeader, _ = Data["HostHeader"].(string)
@@ -398,7 +398,7 @@ func (t *Teamserver) Start() {
 				switch Data["Response Headers"].(type) {
 
 				case string:
-					HandlerData.Response.Headers = strings.Split(Data["Response Headers"].(string), ", ")
+					HandlerData.Response.Headers = storedList(Data["Response Headers"].(string))
 					break
 
 				default:
@@ -509,6 +509,16 @@ func (t *Teamserver) Start() {
 
 	verifhook.Point("server.ready")
 	<-ServerFinished
+}
+
+// storedList splits a list of a stored listener config (its items joined by ", "). An empty
+// list is stored as the empty string.
+func storedList(List string) []string {
+	if List == "" {
+		return nil
+	}
+
+	return strings.Split(List, ", ")
 }
 
 // storedKillDate reads the kill date of a stored listener config. It is a 64 bit integer
